@@ -57,6 +57,8 @@ def check_config(ctx, F, tag):
     # queries of the built vector narrow their search with
     import rltables
     rltables.check_every_slot_written(ctx, F, tag, "C16.R5.rl")
+    import c06
+    c06.check_sparse_bucket_count(ctx, F, tag, "C16.R5.sparse-bucket-count")         # the builder's `high` holds every accepted position
     # ---------------- R1 Err paths are pure
     for fn in (SB + "::try_set", RB + "::try_set"):
         b = F.body(fn)
@@ -322,6 +324,17 @@ def check_comutation(ctx, F, tag, prefix="C16.R3"):
                 ctx.ob(prefix + ".co-mutation", "%s|%s.%s~%s#%d%s" % (b.name, adt.split("::")[-1], a, partner, k, tag), loc(st["sp"]), ok, "co-mutation", positive=True, detail=
                        "store to %s.%s %s a direct store to .%s on the same path (a callee counts only if it runs after the store and stores .%s on all of its paths)" % (adt.split("::")[-1], a, "is accompanied by" if ok else "is NOT accompanied by", partner, a))
         ctx.count("co-mutation-triggers-%s%s" % (adt.split("::")[-1], tag), n)
+    # the order test of try_set compares the next position with `next`: after position i was set it is i + increment, also when that
+    # is the universe itself (the last position was set; nothing more can follow) -- a clamped cursor lets the last position be set again
+    su = SB + "::set_unchecked"
+    if F.has_body(su):
+        b = F.body(su)
+        for k, (bi, si, st) in enumerate(field_store_blocks(b, SB, "next")):
+            t = core(b.term_of_rvalue(st["rv"]))
+            exact = m(Bin("Add", Param(1), SelfField("increment")), t)
+            clamped = t[0] == "call" and t[1].split("::")[-1] in ("min", "max", "clamp", "saturating_add", "saturating_sub") and any(x[:2] == ("param", 1) for x in subterms(t))
+            ctx.ob(prefix + ".cursor-is-index-plus-increment", "%s|next#%d%s" % (su, k, tag), loc(st["sp"]), True if exact else (False if clamped else None), "term-shape",
+                   "next := %s (the position just set plus the increment, unclamped)" % tstr(t)[:70], positive=clamped)
     # (a clean-up may merge two stores of one function into one: the floor is the number of mutators that must still store, not
     # the number of store statements counted on the pinned tree)
     ctx.floor("co-mutation-triggers-RLBuilder" + tag, 2)
